@@ -389,6 +389,12 @@ def tie_b_generic(res, workdir, key, emit_name, kern, bridge, what):
     return ok
 
 
+def tie_b_items(res, workdir):
+    """Tie B for the field codecs: Item / Padding / CH pack and unpack of ubxlib/types.py, and the struct format of every
+    integer field class."""
+    return tie_b_generic(res, workdir, 'items', 'emit_items_v', 'ItemKernels.v', 'BridgeItems.v', 'Item/Padding/CH pack/unpack')
+
+
 def tie_b_cfgobj(res, workdir):
     """Tie B for the configuration item codec: CfgKeyData.pack/unpack (+ _pack_keyid, _pack_value, _unpack_value)."""
     return tie_b_generic(res, workdir, 'cfgobj', 'emit_cfgobj_v', 'CfgKernels.v', 'BridgeCfgObj.v', 'CfgKeyData.pack/unpack')
